@@ -959,10 +959,27 @@ def run_case(desc):
     ncycles = min(6000, 200 + 14 * len(agent.words) + (400 if mps <= 64 else 3000))
     if agent.wrap is not None:
         ncycles = 6000          # the run ends 40 cycles after the host has accepted the last planned packet
+    n_own = len(outs)
+    if kind in ("loopmux", "shared"):
+        # what the data packet transmitter sees behind the multiplexer (sampled, judged below, not sent to the model)
+        sh = top.shared
+        outs = outs + [sh.tx.valid, sh.tx_zlp, sh.tx_sequence_number, sh.tx_endpoint_number, sh.tx_length]
     stim, rows = run_reactive(top, ins, outs, agent, ncycles, fixed=desc.get("stimulus"))
+    mux_fails = []
+    if kind in ("loopmux", "shared"):
+        for t, r in enumerate(rows):
+            own = (r[O["tx_valid"]], r[O["tx_zlp"]], r[O["tx_seq"]], r[O["tx_ep"]], r[O["tx_length"]])
+            if (own[0] or own[1]) and tuple(r[n_own:n_own + 5]) != own and not mux_fails:
+                mux_fails.append({"cycle": t, "sig": "mux-forwards-packet-fields", "what":
+                                  "cycle %d: the endpoint presents tx.valid=%d tx_zlp=%d sequence=%d endpoint=%d length=%d, "
+                                  "behind SuperSpeedEndpointMultiplexer the transmitter sees valid=%d zlp=%d sequence=%d "
+                                  "endpoint=%d length=%d: the packet (or ZLP) goes out with other header fields than the "
+                                  "endpoint's" % ((t,) + own + tuple(r[n_own:n_own + 5]))})
+        rows = [list(r[:n_own]) + list(r[n_own + 5:]) for r in rows]
     fails, tags = [], []
     if desc["mode"] == "script":
         fails, tags = monitor(mps, ep, stim, rows, kind)
+    fails = list(fails) + mux_fails
     tags = ["mps=%d" % mps, "mode=" + desc["mode"], "kind=" + kind] + tags
     if desc.get("directed"):
         tags.append("directed:" + desc["directed"])
